@@ -244,6 +244,29 @@ def env_text(cenv):
     return ", ".join(parts)
 
 
+def stable_text(e):
+    """Text of an expression for finding signatures: the harness's own rendering, independent of pymbolic's
+    repr / stringifier (a known finding must stay recognisable if those are refactored)."""
+    import dataclasses
+
+    import pymbolic.primitives as p
+    if isinstance(e, p.Variable) and type(e) is p.Variable:
+        return e.name
+    if isinstance(e, p.Expression):
+        if dataclasses.is_dataclass(e):
+            parts = [stable_text(getattr(e, f.name)) for f in dataclasses.fields(e)]
+        else:
+            parts = [stable_text(a) for a in e.__getinitargs__()]
+        return f"{type(e).__name__}({', '.join(parts)})"
+    if isinstance(e, tuple):
+        return "(" + ", ".join(stable_text(c) for c in e) + ("," if len(e) == 1 else "") + ")"
+    if isinstance(e, list):
+        return "[" + ", ".join(stable_text(c) for c in e) + "]"
+    if hasattr(e, "items"):
+        return "{" + ", ".join(f"{k}: {stable_text(v)}" for k, v in sorted(e.items())) + "}"
+    return repr(e)
+
+
 def finish(res: ItemResult, ex_stats_list, q: Query):
     for st in ex_stats_list:
         res.paths += st.paths
